@@ -67,6 +67,13 @@ def loBound (fromP : Option (Nat → Bool)) (cur : Nat) : Nat :=
 def specAny (count : Nat → Bool) (fromP : Option (Nat → Bool)) (cur : Nat) : List Nat :=
   [((List.range (cur + 1)).filter fun m => loBound fromP cur ≤ m ∧ count m).length]
 
+/-- §7.7 `level="any"` for an **attribute** node `a` of element `o` (attributes are numbered from `d.size` up, after
+all other nodes, so "before in document order" cannot be read off the numbers): the members of the preceding and
+ancestor-or-self axes of `a` are `a` itself and every node `m ≤ o` (the element and what precedes it); the `from`
+node is the last match among the nodes `m ≤ o`. -/
+def specAnyAttr (count : Nat → Bool) (fromP : Option (Nat → Bool)) (a o : Nat) : List Nat :=
+  [(if count a then 1 else 0) + ((List.range (o + 1)).filter fun m => loBound fromP (o + 1) ≤ m ∧ count m).length]
+
 def numberSpec (d : Doc) (level : Level) (count : Nat → Bool) (fromP : Option (Nat → Bool)) (cur : Nat) : List Nat :=
   match level with
   | .single => specSingle d count fromP cur
